@@ -23,6 +23,9 @@ structural reader ``models/table_reader.py`` (column positions from the '+' mark
                        the first line iterator is advanced k lines (every k), then the second is started and
                        exhausted, then the first is finished; also strictly alternating. Each table is judged alone.
 
+  F11 typed widths   : width limits given only through the field type (``fields_types={f: FieldType(min_width=a,
+                       max_width=b)}``, no width in the fmt) incl. 0-0, 0-1, 0-3, 0-999: the printed width must lie
+                       within the type's limits (FieldType(max_width=0) alone has min 1 > max 0: outside the domain)
   F10 equal values   : all sequences of 1..3 values of {1, True, 1.0, 0, False, 0.0, 2, 2.0} in one column, all pairs in
                        two columns, and all two-table sequences (second table printed after the first, no reset):
                        a cell shows str() of ITS value
@@ -53,7 +56,7 @@ compared only when the line shows it in full); header and footer padded / trunca
 import itertools
 
 from ak.color import CHText
-from ak.ppobj import PPTable, PPEnumFieldType
+from ak.ppobj import PPTable, PPEnumFieldType, FieldType
 from models import table_reader as tr
 
 import weakref
@@ -160,7 +163,8 @@ ASSUMPTIONS = [
 # parsed output is counted under "obs:..." and is informational
 REQUIRED_FEATURES = [
     "cols:1", "cols:2", "cols:3", "cols:same-field-twice", "cols:removed-by-skip_columns", "records:0", "records:5+",
-    "width:zero", "width:min=max", "width:ranged", "width:unspecified",
+    "width:zero", "width:min=max", "width:ranged", "width:unspecified", "width:from-field-type",
+    "width:field-type-min-zero", "width:field-type-max-zero",
     "cell:longer-than-max", "cell:longer-than-max<3", "cell:shorter-than-min", "value:border-chars", "value:empty",
     "value:none", "value:number", "title:longer-than-max",
     "break-by:one", "break-by:two", "body:break-line", "limits:none", "limits:must-apply", "limits:fit",
@@ -191,6 +195,8 @@ ENUMS = {
 # ------------------------------------------------------------------------------------------ reference model
 def col_bounds(col):
     w = col.get("w")
+    if w is None and col.get("tw") is not None:
+        return col["tw"][0], col["tw"][1]     # limits given through the field type: FieldType(min_width, max_width)
     if w is None:
         return DEFAULT_MIN, DEFAULT_MAX
     if len(w) == 1:
@@ -232,6 +238,10 @@ def make_table(case, records=None):
         kw["fields_titles"] = {k: (tuple(v) if isinstance(v, list) else v) for k, v in case["titles"].items()}
     if case.get("enums"):
         kw["fields_types"] = {f: PPEnumFieldType(dict(ENUMS[name])) for f, name in case["enums"].items()}
+    typed = {c["f"]: c["tw"] for c in case["cols"] if c.get("tw") is not None}
+    if typed:
+        kw.setdefault("fields_types", {}).update(
+            {f: FieldType(min_width=tw[0], max_width=tw[1]) for f, tw in typed.items()})
     return PPTable([tuple(r) for r in case["records"]] if records is None else records, **kw)
 
 
@@ -469,7 +479,13 @@ def case_features(case, feats):
     feats.add("records:0" if n == 0 else ("records:5+" if n >= 5 else "records:1-4"))
     for c in cols:
         lo, hi = col_bounds(c)
-        if c.get("w") is None:
+        if c.get("w") is None and c.get("tw") is not None:
+            feats.add("width:from-field-type")
+            if lo == 0:
+                feats.add("width:field-type-min-zero")
+            if hi == 0:
+                feats.add("width:field-type-max-zero")
+        elif c.get("w") is None:
             feats.add("width:unspecified")
         elif hi == 0:
             feats.add("width:zero")
@@ -1150,9 +1166,23 @@ def fam_F10(tier):
                             {"fields": ["v"], "records": [[x] for x in s2], "cols": [{"f": "v", "w": None}]}]}
 
 
-FAMILIES = {"F10": fam_F10, "F8": fam_F8, "F9": fam_F9, "F7": fam_F7, "F1": fam_F1, "F2": fam_F2, "F3": fam_F3, "F4": fam_F4, "F5": fam_F5, "F6": fam_F6}
-PARTS = {"quick": {"F10": 4, "F8": 4, "F9": 8, "F7": 8, "F1": 12, "F2": 24, "F3": 24, "F4": 16, "F5": 12, "F6": 12},
-         "thorough": {"F10": 4, "F8": 8, "F9": 8, "F7": 16, "F1": 32, "F2": 64, "F3": 64, "F4": 48, "F5": 32, "F6": 32}}
+TW = [[0, 0], [0, 1], [0, 3], [0, 999], [1, 4], [2, 2], [5, 5]]
+
+
+def fam_F11(tier):
+    """width limits given through the field type (fields_types={name: FieldType(min_width, max_width)}), none in fmt"""
+    recs = list(_seqs(V_CORE, 0, 2))
+    for seq, tw, name in itertools.product(recs, TW, ["c", "a long title"]):
+        yield {"fields": [name], "records": [[v] for v in seq], "cols": [{"f": name, "tw": tw}]}
+    pairs = list(itertools.product([1, "abcde", ""], repeat=2))
+    for seq, twa, other in itertools.product(list(_seqs(pairs, 0, 2)), TW, [{"w": None}, {"w": [0]}, {"tw": [0, 0]}]):
+        yield {"fields": ["a", "b"], "records": [list(p) for p in seq],
+               "cols": [dict({"f": "b"}, **other), {"f": "a", "tw": twa}]}
+
+
+FAMILIES = {"F11": fam_F11, "F10": fam_F10, "F8": fam_F8, "F9": fam_F9, "F7": fam_F7, "F1": fam_F1, "F2": fam_F2, "F3": fam_F3, "F4": fam_F4, "F5": fam_F5, "F6": fam_F6}
+PARTS = {"quick": {"F11": 4, "F10": 4, "F8": 4, "F9": 8, "F7": 8, "F1": 12, "F2": 24, "F3": 24, "F4": 16, "F5": 12, "F6": 12},
+         "thorough": {"F11": 4, "F10": 4, "F8": 8, "F9": 8, "F7": 16, "F1": 32, "F2": 64, "F3": 64, "F4": 48, "F5": 32, "F6": 32}}
 
 
 def bounds(tier):
@@ -1170,6 +1200,7 @@ def bounds(tier):
                "modifiers": [None, "full", "val", "name"]},
         "F5": {"headers": HEADERS, "footers": FOOTERS, "titles": len(TITLES)},
         "F6": {"records": [4, 7 if th else 6]},
+        "F11": {"field_type_limits(min,max)": TW, "fmt_width": "none", "records": "<= 2"},
         "F10": {"values": [repr(x) for x in V_EQUAL], "one_column_records": "1..3", "two_column": "all value pairs",
                 "two_table_sequences": "all pairs of value sequences of length 1..2, no state reset in between"},
         "F8": {"base_records": "<= 3" if th else "<= 2", "appended_records": "1..2 over 4 values (shorter, longer, None, a|b)",
